@@ -80,6 +80,14 @@ class V5:
     # parameters the installed v5 implementation does not use at all (compared only at their default value)
     unused_by_v5 = {}
 
+    def __init__(self, **flag_overrides):
+        """flag_overrides: documented boolean constructor options (same names in lerax and in Gymnasium v5) set to a non-default value; every
+        v5 option of this kind defaults to True"""
+        self.F = dict(flag_overrides)
+
+    def flag(self, name):
+        return bool(self.F.get(name, True))
+
     def obs(self, o, P, D):
         raise NotImplementedError
 
@@ -112,7 +120,8 @@ class Ant(V5):
 
     def obs(self, o, P, D):
         cf = self.contact_forces(o, P, D)
-        return flat(D["qpos"])[2:] + flat(D["qvel"]) + [x for row in cf[1:] for x in row]
+        q = flat(D["qpos"])[2:] if self.flag("exclude_current_positions_from_observation") else flat(D["qpos"])
+        return q + flat(D["qvel"]) + ([x for row in cf[1:] for x in row] if self.flag("include_cfrc_ext_in_observation") else [])
 
     def healthy(self, o, P, D):
         lo, hi = P["healthy_z_range"]
@@ -147,7 +156,7 @@ class HalfCheetah(V5):
     skip = 1
 
     def obs(self, o, P, D):
-        return flat(D["qpos"])[self.skip:] + flat(D["qvel"])
+        return flat(D["qpos"])[(self.skip if self.flag("exclude_current_positions_from_observation") else 0):] + flat(D["qvel"])
 
     def step(self, o, P, D, a, D2):
         xv = o.fdiv(o.sub(D2["qpos"][0], D["qpos"][0]), P["dt"])
@@ -186,7 +195,7 @@ class Walker2d(V5):
     terminates = True
 
     def obs(self, o, P, D):
-        return flat(D["qpos"])[1:] + [clip(o, v, -10, 10) for v in flat(D["qvel"])]
+        return flat(D["qpos"])[(1 if self.flag("exclude_current_positions_from_observation") else 0):] + [clip(o, v, -10, 10) for v in flat(D["qvel"])]
 
     def healthy(self, o, P, D):
         zlo, zhi = P["healthy_z_range"]
@@ -233,8 +242,12 @@ class Humanoid(V5):
     terminates = True
 
     def obs(self, o, P, D):
-        return (flat(D["qpos"])[2:] + flat(D["qvel"]) + flat(np.asarray(D["cinert"], dtype=object)[1:]) + flat(np.asarray(D["cvel"], dtype=object)[1:])
-                + flat(D["qfrc_actuator"])[6:] + flat(np.asarray(D["cfrc_ext"], dtype=object)[1:]))
+        blk = lambda f, x: x if self.flag(f) else []
+        return ((flat(D["qpos"])[2:] if self.flag("exclude_current_positions_from_observation") else flat(D["qpos"])) + flat(D["qvel"])
+                + blk("include_cinert_in_observation", flat(np.asarray(D["cinert"], dtype=object)[1:]))
+                + blk("include_cvel_in_observation", flat(np.asarray(D["cvel"], dtype=object)[1:]))
+                + blk("include_qfrc_actuator_in_observation", flat(D["qfrc_actuator"])[6:])
+                + blk("include_cfrc_ext_in_observation", flat(np.asarray(D["cfrc_ext"], dtype=object)[1:])))
 
     def mass_center(self, o, P, D, axis):
         """(sum_b mass_b * xipos_b) / sum_b mass_b"""
@@ -397,7 +410,7 @@ class GymOracle:
     def __init__(self, ref):
         import gymnasium as gym
         self.ref = ref
-        self.g = gym.make(ref.gym_id).unwrapped
+        self.g = gym.make(ref.gym_id, **getattr(ref, "F", {})).unwrapped
         self.g.reset(seed=0)
         import mujoco
         if hasattr(ref, "bodies"):
